@@ -1,5 +1,6 @@
 import Dashu.Proofs.NT.ModHom
 import Dashu.Proofs.NT.ModPowLarge
+import Dashu.Proofs.NT.ModContracts
 /-
   C13 — Reduced-ring arithmetic is the homomorphic image of integer arithmetic.
 
@@ -303,6 +304,43 @@ theorem different_instances_same_modulus (W m : Nat) (hm : m ≠ 0) :
   intro r1 r2 h1 h2 he
   have := (Ring.new_m h1).2; have := (Ring.new_m h2).2
   subst he; omega
+
+-- ---------------------------------------------------------------- the division primitives behind `%`
+
+/-- single-word rings: at the arguments dashu passes (`rem_word` with a shift, `mul`, `sqr`), num-modular's
+    `div_rem_2by1` — mirrored and proved by C02 (`Dashu.Model.NumModular`, Möller–Granlund Algorithm 4) — is
+    called inside its precondition `high word < divisor` and returns exactly the `%` the ring model uses -/
+theorem single_word_division_contracts (W : Nat) (r : Ring) (hwf : r.WF W) (hn : r.n = 1) :
+    (∀ x, x < 2 ^ W →
+        (NumModular.div2by1 W r.M (NumModular.invertWord W r.M) (x * 2 ^ r.k)).2 = (x * 2 ^ r.k) % r.M) ∧
+    (∀ u v, u < r.m → v < r.m →
+        (NumModular.div2by1 W r.M (NumModular.invertWord W r.M) ((u * 2 ^ r.k) / 2 ^ r.k * (v * 2 ^ r.k))).2
+          = ((u * 2 ^ r.k) / 2 ^ r.k * (v * 2 ^ r.k)) % r.M) ∧
+    (∀ u, u < r.m →
+        (NumModular.div2by1 W r.M (NumModular.invertWord W r.M) ((u * 2 ^ r.k) * (u * 2 ^ r.k) / 2 ^ r.k)).2
+          = ((u * 2 ^ r.k) * (u * 2 ^ r.k) / 2 ^ r.k) % r.M) :=
+  single_ring_calls hwf hn
+
+/-- double-word rings: `mul` and `sqr` call `div_rem_4by2(lo, hi)` (two Algorithm-5 steps) with `hi < M` -/
+theorem double_word_division_contracts (W : Nat) (r : Ring) (hwf : r.WF W) (hn : r.n = 2) :
+    (∀ u v, u < r.m → v < r.m →
+        let p := (u * 2 ^ r.k) / 2 ^ r.k * (v * 2 ^ r.k)
+        (NumModular.div4by2 W r.M (NumModular.invertDoubleWord W r.M) (p % 2 ^ (2 * W)) (p / 2 ^ (2 * W))).2
+          = p % r.M) ∧
+    (∀ u, u < r.m →
+        let p := (u * 2 ^ r.k) * (u * 2 ^ r.k) / 2 ^ r.k
+        (NumModular.div4by2 W r.M (NumModular.invertDoubleWord W r.M) (p % 2 ^ (2 * W)) (p / 2 ^ (2 * W))).2
+          = p % r.M) :=
+  double_ring_calls hwf hn
+
+/-- non-vacuity: rings of one and two words exist (with and without a shift) -/
+example : (∃ r, Ring.new 64 0 1000003 = .ok r ∧ r.n = 1 ∧ r.k = 44) ∧
+    (∃ r, Ring.new 64 0 (2 ^ 127 + 5) = .ok r ∧ r.n = 2 ∧ r.k = 0) :=
+  ⟨⟨_, rfl, rfl, by decide⟩, ⟨_, rfl, rfl, by decide⟩⟩
+
+/-- non-vacuity of `ops_closed`: two valid pre-shifted elements of a 3-word ring with shift 3 -/
+example : ∃ r, Ring.new 64 0 (2 ^ 188 + 12345) = .ok r ∧ Valid r (7 * 2 ^ r.k) ∧ Valid r ((2 ^ 188) * 2 ^ r.k) :=
+  ⟨_, rfl, by decide, by decide⟩
 
 -- ---------------------------------------------------------------- the Reducer<UBig> impl
 
